@@ -185,7 +185,7 @@ func (r *Reader) Read(p []byte) (int, error) {
 	case ChunkSmall:
 		k = 1 + r.Ctx.T.Draw(4)
 	case ChunkAny:
-		k = 1 + r.Ctx.T.Draw(len(p))
+		k = 1 + r.Ctx.T.Draw(96) // independent of len(p): the consumer's buffer size must not shift the tape
 	case ChunkRuneM1:
 		k = runeMinusOne(r.Data[r.Off:lim])
 	}
@@ -345,7 +345,7 @@ func readAtCommon(ctx *core.Ctx, data []byte, pl *Plan, failed *bool, p []byte, 
 			}
 		case ChunkAny:
 			if ctx != nil {
-				k = 1 + ctx.T.Draw(len(p))
+				k = 1 + ctx.T.Draw(96)
 			}
 		case ChunkRuneM1:
 			if ctx != nil {
